@@ -177,7 +177,7 @@ def fn_never_fails(facts, fid):
     """in-crate callee constructs no Err/None and uses no `?`: its Result/Option is always Ok/Some"""
     f = facts.fn(fid)
     for n in hirq.walk(f["hir"]):
-        if n["k"] == "Path" and n["res"].get("path", "").endswith(("::Err", "::None")):
+        if n["k"] == "Path" and n["res"].get("path", "").endswith(("::Err", "::None")) and not hirq.from_expansion(n):
             return False
         if n["k"] == "Match" and n.get("src", "").startswith("TryDesugar"):
             return False
